@@ -15,14 +15,14 @@ Definition init_st : st :=
 Definition range_eq (a b : range) : bool := (fst a =? fst b) && (snd a =? snd b).
 Definition tok_range_eq (a b : tok) : bool := range_eq (t_range a) (t_range b).
 
-Definition var_name (vs : list rvar) (id : N) : string :=
-  match nth_error vs (N.to_nat id) with Some v => t_name (v_tok v) | None => "" end.
+Definition var_name_is (vs : list rvar) (name : string) (id : N) : bool :=
+  match nth_error vs (N.to_nat id) with Some v => str_eqb (t_name (v_tok v)) name | None => false end.
 
 (** variable_in_scope + find_variable *)
 Inductive lookup_res := LFound (id : N) | LBlocked | LNotFound.
 
 Definition in_scope (vs : list rvar) (sc : scope) (name : string) : lookup_res :=
-  match find (fun id => str_eqb (var_name vs id) name) (s_vars sc) with
+  match find (var_name_is vs name) (s_vars sc) with
   | Some id => LFound id
   | None => if s_blocked sc && str_eqb name "..." then LBlocked else LNotFound
   end.
